@@ -262,13 +262,20 @@ class ScaledInPlace(Harness):
         back = sm.untransform(tr.copy(), copy=True)
         un = sm.unscale(inplace=False)
         # a not-in-place rescale of another (un-standardised) matrix returns the standardised values and leaves the object alone
+        # location / scale handed over as integers (0 and 1): an in-place rescale must still store the real-valued mean and spread
+        li, si = numpy.zeros(t, dtype=int), numpy.ones(t, dtype=int)
+        if not mk.concrete:
+            li, si = symnp.box(li), symnp.box(si)      # engine arrays of integer type, so that a write into them is modelled (cast) rather than refused
+        ints = DenseScaledMatrix(mat=R.copy(), location=li, scale=si)
+        ints.rescale(inplace=True)
+        un_int = ints.unscale(inplace=False)
         other = DenseScaledMatrix(mat=R.copy())
         before = (other.location.copy(), other.scale.copy(), other.mat.copy())
         resc = other.rescale(inplace=False)
         after = (other.location, other.scale, other.mat)
         un3 = other.unscale(inplace=False)
         un2 = sm.unscale(inplace=True)
-        return dict(back=back, un=un, un2=un2, loc=sm.location, scale=sm.scale, before=before, after=after, un3=un3, resc=resc)
+        return dict(back=back, un=un, un2=un2, loc=sm.location, scale=sm.scale, before=before, after=after, un3=un3, resc=resc, un_int=un_int)
 
     def check(self, P, inp, out):
         t = self.params["t"]
@@ -287,6 +294,7 @@ class ScaledInPlace(Harness):
         for i in range(self.params["n"]):
             for j in range(t):
                 P.prove(P.eq(cell(out["un3"], i, j), cell(inp["R"], i, j)), "unscale-after-a-not-in-place-rescale-still-reproduces-raw-values")
+                P.prove(P.eq(cell(out["un_int"], i, j), cell(inp["R"], i, j)), "rescale-of-a-matrix-created-with-integer-location/scale-reproduces-raw-values")
 
 
 def obligations(tier):
